@@ -27,46 +27,60 @@ type runner struct {
 }
 
 type pending struct {
-	sc    scenario
-	tie   *lib.Tie
-	calls []call
-	first int // index of the first answer line of this scenario (after the optional keys line)
+	sc  scenario
+	tie *lib.Tie
+	qs  []modelQ
+	at  int // index of the first line of this scenario in rn.lines
 }
 
 func (rn *runner) do(sc scenario, tie *lib.Tie) {
 	r, _ := rpcByName(sc.RPC)
-	calls, full, err := sc.run()
+	res, err := sc.run()
 	if err != nil {
 		rn.mon.Error = err.Error()
 		return
 	}
-	nontrivial := len(calls) > 1 || len(sc.collection()) > 0
-	key := fmt.Sprintf("%s|%d|%v|%s|%v|%v", sc.RPC, len(sc.IDs), sc.Sizes, sc.Token, sc.Delete, sc.Mask)
+	ncalls := len(res.warm)
+	for _, p := range res.passes {
+		ncalls += len(p)
+	}
+	nontrivial := ncalls > 1 || len(res.coll) > 0
+	key := fmt.Sprintf("%s|%d|%v|%s|%v|%v|%v|%v|%d", sc.RPC, len(sc.IDs), sc.Sizes, sc.Token, sc.Delete, sc.Mask, sc.Ops, sc.Warm, sc.Passes)
 	rn.mon.Eval(key, nontrivial, sc.summary())
 	rn.mon.Count("class:" + sc.Class)
 	if sc.Mask != nil {
 		rn.mon.Count(fmt.Sprintf("read-mask:key-visible=%v,witness-visible=%v", sc.keyVisible(), sc.witVisible()))
 	}
-	sc.monitor(rn.mon, r.Variant, calls, full)
+	sc.monitor(rn.mon, r.Variant, res)
 	tie.Count("class:" + sc.Class)
 	tie.Count("rpc:" + sc.RPC)
-	for _, c := range calls {
+	for i, o := range res.ops {
+		tie.Count("op:" + sc.Ops[i].Kind + ":" + strings.SplitN(o, " ", 2)[0])
+	}
+	count := func(c call) {
 		o := c.Out
 		if i := strings.IndexByte(o, ' '); i > 0 && strings.HasPrefix(o, "ok") {
 			o = "ok"
 		}
 		tie.Count("outcome:" + o)
 	}
+	for _, c := range res.warm {
+		count(c)
+	}
+	for _, p := range res.passes {
+		for _, c := range p {
+			count(c)
+		}
+	}
 	if rn.drv == nil {
 		return
 	}
-	lines := sc.driverLines(r.Variant, calls)
-	first := len(rn.lines)
-	if r.Variant != "waste" {
-		first++
+	qs := sc.driverLines(r.Variant, res)
+	at := len(rn.lines)
+	for _, q := range qs {
+		rn.lines = append(rn.lines, q.Line)
 	}
-	rn.lines = append(rn.lines, lines...)
-	rn.pend = append(rn.pend, pending{sc: sc, tie: tie, calls: calls, first: first})
+	rn.pend = append(rn.pend, pending{sc: sc, tie: tie, qs: qs, at: at})
 	if len(rn.lines) > 4000 {
 		rn.flush()
 	}
@@ -83,10 +97,12 @@ func (rn *runner) flush() {
 		return
 	}
 	for _, p := range rn.pend {
-		for i, c := range p.calls {
-			key := fmt.Sprintf("%s|%d|%d|%s|%v", p.sc.RPC, len(p.sc.IDs), c.Size, c.Tok, p.sc.keyVisible())
-			in := map[string]any{"scenario": p.sc.summary(), "call": i, "size": c.Size, "token": c.Token, "model_request": rn.lines[p.first+i]}
-			p.tie.Record(key, true, in, ans[p.first+i], c.Out)
+		for i, q := range p.qs {
+			if q.Key == "" {
+				continue // state-setting line, nothing to compare
+			}
+			in := map[string]any{"scenario": p.sc.summary(), "step": q.What, "model_request": q.Line}
+			p.tie.Record(q.Key, true, in, ans[p.at+i], q.Code)
 		}
 	}
 	rn.lines, rn.pend = nil, nil
@@ -100,14 +116,18 @@ func main() {
 	res := lib.NewResult("C15", f)
 	rn := &runner{f: f}
 	rn.small = res.Tie("paging-small-exhaustive", "K2",
-		"every collection over the id pool {a,ab,b} (waste: 0..3 records) x page size {-2,-1,0,1,2,3} x starting token {empty, last key in {'',a,aa,ab,b,c}, undecodable text, undecodable bytes} (waste: {empty,0..4,-1,text,overflow}) on each of the seven RPCs, chain followed to its end; every call compared with the Lean model; distinct = (rpc, |ids|, size, decoded token)")
+		"every collection over the id pool {a,ab,b} (waste: 0..3 records) x page size {-2,-1,0,1,2,3} x starting token {empty, last key in {'',a,aa,ab,b,c}, undecodable text, undecodable bytes} (waste: {empty,0..4,-1,text,overflow}) on each of the seven RPCs, with and without a read mask hiding the key, chain followed to its end; plus every sequence of <= 2 creation/update/deletion API calls (ids a, b, empty; generated ids; parent AddChild/AddChildTrait; publication update with and without the id in the message) on a collection {a}, then two passes of one-item and default-size pages; every op outcome, the listing (Collection.List vs sortKeys) and every List call compared with the Lean model; distinct = (rpc, |ids|, size, decoded token, key visible) / (rpc, op kind, outcome)")
 	rn.small.Exhaustive = true
 	rn.tie = res.Tie("paging-scenarios", "K1",
-		"structured random paging scenarios from one PRNG: collection sizes 0-60/49,50,51/999-1001, page sizes {-5..0,1,2,3,7,50,1000,5000,random} fixed or varying per page, prefix-related and multi-byte ids, hostile tokens (bit flips, truncation, base64 of random bytes, tokens for deleted/absent keys, out-of-range indices); every List call compared with the Lean model; distinct = (rpc, |ids|, size, decoded token)")
+		"structured random paging scenarios from one PRNG: collection sizes 0-60/49,50,51/999-1001, page sizes {-5..0,1,2,3,7,50,1000,5000,random} fixed or varying per page, prefix-related and multi-byte ids, hostile tokens (bit flips, truncation, base64 of random bytes, tokens for deleted/absent keys, other oneof member, unknown fields, repeated field, other listers' tokens, URL/raw alphabets, embedded newlines, out-of-range indices), collections built by random histories of the models' creation/update/deletion APIs, 2-3 passes over one model, arbitrary warm-up List calls before the chain; every op outcome, listing and List call compared with the Lean model; distinct = (rpc, |ids|, size, decoded token, key visible)")
 	rn.mon = res.Monitor("paging-property",
-		"per scenario, oracle = ids sorted bytewise (waste: reverse insertion order) filtered by the harness's own decoding of the starting token: no panic; negative size and malformed token answered by an error; otherwise no error, |page| <= min(size or 50, 1000), total_size = |items|, empty token reached within |items|+1 pages, concatenation = listing; non-trivial = non-empty collection or more than one page")
+		"per scenario, oracle = ids sorted bytewise (waste: reverse insertion order) filtered by the harness's own decoding of the starting token: the collection expected after the store ops comes from the harness's own set oracle; no listed key is empty; unpaged listing = oracle; no panic; negative size and malformed token answered by an error; otherwise no error, |page| <= min(size or 50, 1000), total_size = |items| on every page (the trailing empty one included), empty token reached within |items|+1 pages, concatenation = listing, on EVERY pass over the same model; the listing is unchanged after all List calls; non-trivial = non-empty collection or more than one call")
 	codecTie := res.Tie("token-codec", "K1",
 		"token encode/decode identity on the six key-token RPCs: a one-item collection whose key is an ARBITRARY byte string (22 edge cases: NUL, 1-4 byte runes, BOM, overlong forms, surrogates, > U+10FFFF, truncated sequences; random runes; random bytes); page 1 mints a token from the key, the harness decodes it with its own base64(std)+proto reader, call 2 uses it. Model: the key is a String (valid UTF-8) and the token carries it unchanged, or the bytes are not a String ('invalid': proto.Marshal refuses the token, the RPC answers Unknown); distinct = (rpc, bytes)")
+	discTie := res.Tie("lister-discovery", "K3",
+		"every hand-written method List…(ctx, *XRequest) (*XResponse, error) under /repo/pkg (not *.pb.go, not tests) whose request message has page_token and whose response has next_page_token according to the compiled protobuf descriptors, found by go/parser on every run; each must be one the harness drives (a lister that is not is a disagreement), and each driven lister must still exist")
+	discTie.Exhaustive = true
+	discovery(discTie)
 	if f.Driver != "" {
 		d, err := lib.StartDriver(f.Driver)
 		if err != nil {
@@ -126,6 +146,7 @@ func main() {
 	rng := lib.NewRand(f.Seed)
 	rn.codec(rng, codecTie, f.N(40, 2000))
 	rn.smallExhaustive()
+	rn.smallOps()
 	rn.flush()
 	rn.random(rng)
 	rn.flush()
@@ -164,6 +185,70 @@ func (rn *runner) smallExhaustive() {
 					// the same with a read mask that hides the key field
 					rn.do(scenario{RPC: r.Name, IDs: ids, Sizes: []int32{s}, Token: t, Mask: hideKey(r), Class: "small-masked"}, rn.small)
 				}
+			}
+		}
+	}
+}
+
+// opAlphabet lists the store ops the model behind rp offers, over the given ids.
+func opAlphabet(rp rpc, ids []string) []storeOp {
+	var ops []storeOp
+	switch {
+	case rp.Variant == "waste":
+		return nil
+	case rp.Name == "parent.ListChildren":
+		for _, id := range append([]string{""}, ids...) {
+			ops = append(ops, storeOp{Kind: "ensure", ID: id}, storeOp{Kind: "ensure", ID: id, Alt: true})
+		}
+	case rp.Name == "hail.ListHails":
+		ops = append(ops, storeOp{Kind: "add", ID: ""}) // CreateHail always invents the id
+	default:
+		for _, id := range append([]string{""}, ids...) {
+			ops = append(ops, storeOp{Kind: "add", ID: id})
+		}
+	}
+	for _, id := range ids {
+		ops = append(ops, storeOp{Kind: "update", ID: id}, storeOp{Kind: "delete", ID: id})
+		if rp.Name == "publication.ListPublications" {
+			ops = append(ops, storeOp{Kind: "update", ID: id, Alt: true})
+		}
+	}
+	return ops
+}
+
+// keyMasks: nil, or read masks that keep the key (op scenarios create items whose witness field is not their id).
+func keyMask(r *rand.Rand, rp rpc) []string {
+	switch r.Intn(4) {
+	case 0:
+		return []string{rp.Key}
+	case 1:
+		if rp.Wit != "" {
+			return []string{rp.Key, rp.Wit}
+		}
+	}
+	return nil
+}
+
+// smallOps: every sequence of at most two store ops over the ids {a, b} (and the empty id where the API takes
+// one) on a collection holding {a}, then a chain of one-item pages, twice over the same model.
+func (rn *runner) smallOps() {
+	for _, rp := range rpcs() {
+		alpha := opAlphabet(rp, []string{"a", "b"})
+		if alpha == nil {
+			continue
+		}
+		var seqs [][]storeOp
+		for _, o1 := range alpha {
+			seqs = append(seqs, []storeOp{o1})
+		}
+		for _, o1 := range alpha {
+			for _, o2 := range alpha {
+				seqs = append(seqs, []storeOp{o1, o2})
+			}
+		}
+		for _, ops := range seqs {
+			for _, s := range []int32{1, 0} {
+				rn.do(scenario{RPC: rp.Name, IDs: []string{"a"}, Ops: ops, Sizes: []int32{s}, Passes: 2, Class: "small-ops"}, rn.small)
 			}
 		}
 	}
@@ -302,6 +387,50 @@ func (rn *runner) random(r *rand.Rand) {
 		}
 		rn.do(sc, rn.tie)
 	}
+	// 5. collections built by a history of the model's own creation / update / deletion APIs
+	for i := 0; i < rn.f.N(250, 3000); i++ {
+		rp := all[r.Intn(len(all))]
+		if rp.Variant == "waste" {
+			continue
+		}
+		base := genIDs(r, r.Intn(8))
+		pool := append(append([]string(nil), base...), genIDs(r, 1+r.Intn(6))...)
+		alpha := opAlphabet(rp, pool)
+		var ops []storeOp
+		for j := 0; j < 1+r.Intn(12); j++ {
+			ops = append(ops, alpha[r.Intn(len(alpha))])
+		}
+		sc := scenario{RPC: rp.Name, IDs: base, Ops: ops, Sizes: []int32{genPageSize(r) % 6}, Mask: keyMask(r, rp), Class: "store-ops"}
+		if r.Intn(3) == 0 {
+			sc.Passes = 2
+		}
+		rn.do(sc, rn.tie)
+	}
+	// 6. several passes over the same model, and arbitrary List calls before the monitored chain
+	for i := 0; i < rn.f.N(200, 2500); i++ {
+		rp := all[r.Intn(len(all))]
+		n := r.Intn(40)
+		ids := genIDs(r, n)
+		var ss []int32
+		for j := 0; j < 1+r.Intn(3); j++ {
+			ss = append(ss, genPageSize(r)%12)
+		}
+		sc := scenario{RPC: rp.Name, IDs: ids, Sizes: ss, Mask: genMask(r, rp), Passes: 2 + r.Intn(2), Class: "passes"}
+		for j := 0; j < r.Intn(4); j++ {
+			w := warmCall{Size: genPageSize(r)%12 - int32(r.Intn(2)), Mask: genMask(r, rp)}
+			switch {
+			case n > 0 && rp.Variant == "waste":
+				w.Token = fmt.Sprint(r.Intn(n + 3))
+			case n > 0 && r.Intn(3) > 0:
+				w.Token = encodeKeyToken(ids[r.Intn(n)])
+			case r.Intn(2) == 0:
+				w.Token, _ = corruptToken(r, rp.Variant, encodeKeyToken("a"), ids)
+			}
+			sc.Warm = append(sc.Warm, w)
+			sc.Class = "passes+warm-up"
+		}
+		rn.do(sc, rn.tie)
+	}
 }
 
 func replay(f lib.Flags) int {
@@ -332,15 +461,24 @@ func replay(f lib.Flags) int {
 		fmt.Println("replay: unknown rpc", sc.RPC)
 		return 2
 	}
-	calls, full, err := sc.run()
+	res, err := sc.run()
 	if err != nil {
 		fmt.Println("replay: cannot run scenario:", err)
 		return 2
 	}
 	m := lib.NewMonitor("replay", "")
-	sc.monitor(m, r.Variant, calls, full)
-	for i, c := range calls {
-		fmt.Printf("call %d: %s page_size=%d page_token=%q -> %s %s\n", i, sc.RPC, c.Size, c.Token, c.Out, c.Panic)
+	sc.monitor(m, r.Variant, res)
+	for i, o := range res.ops {
+		fmt.Printf("op %d: %s %q alt=%v -> %s\n", i, sc.Ops[i].Kind, sc.Ops[i].ID, sc.Ops[i].Alt, o)
+	}
+	fmt.Printf("listing: %q\n", res.full)
+	for i, c := range res.warm {
+		fmt.Printf("warm-up call %d: %s page_size=%d page_token=%q -> %s %s\n", i, sc.RPC, c.Size, c.Token, c.Out, c.Panic)
+	}
+	for p, calls := range res.passes {
+		for i, c := range calls {
+			fmt.Printf("pass %d call %d: %s page_size=%d page_token=%q -> %s %s\n", p, i, sc.RPC, c.Size, c.Token, c.Out, c.Panic)
+		}
 	}
 	if len(m.Violations) > 0 {
 		for _, v := range m.Violations {
